@@ -1,2 +1,3 @@
 import Sge.Dec
 import Sge.Mint
+import Sge.Reward
